@@ -14,7 +14,7 @@ import (
 	"unicode"
 
 	"github.com/go-text/typesetting/di"
-	"github.com/go-text/typesetting/harfbuzz"
+	hb "github.com/go-text/typesetting/harfbuzz"
 	"github.com/go-text/typesetting/language"
 	ucd "github.com/go-text/typesetting/unicodedata"
 	"golang.org/x/text/unicode/norm"
@@ -213,6 +213,43 @@ func checkCodePoint(t ev.TB, r rune) (assigned bool) {
 	if sameUnicode && !dataSkew() && !assigned && ok && r >= 0 && r <= 0x10FFFF {
 		fail("decompose", "unassigned code point decomposes to (%s,%s)", u(a), u(b))
 	}
+	// --- the shaper's own lookups (harfbuzz/unicode.go): the same laws through the less common
+	// entry point
+	hbTables := hb.VerifGeneralCategories()
+	hi := linearOne(hbTables, r)
+	if hi == -2 {
+		fail("shaper general category", "more than one category table contains the rune")
+	}
+	hgc := hb.VerifGeneralCategory(r)
+	if hi == -1 && hgc != hb.VerifUnassigned() || hi >= 0 && int(hgc) != hi {
+		fail("shaper general category", "generalCategory=%d, linear scan of its tables gives index %d (unassigned is %d)", hgc, hi, hb.VerifUnassigned())
+	}
+	if p := hb.VerifUnicodeProps(r); p != hgc {
+		fail("shaper general category", "computeUnicodeProps stores %d, generalCategory returns %d", p, hgc)
+	}
+	wantMCC := hbMCC[cc]
+	switch r { // the three documented exceptions of modified_combining_class
+	case 0x1A60, 0x0FC6:
+		wantMCC = 254
+	case 0x0F39:
+		wantMCC = 127
+	}
+	if got := hb.VerifModifiedCombiningClass(r); got != wantMCC {
+		fail("shaper modified combining class", "got %d, table[%d] gives %d", got, cc, wantMCC)
+	}
+	if ha, hbb, hok := hb.VerifDecompose(r); ha != a || hbb != b || hok != ok {
+		fail("shaper decompose", "(%s,%s,%v), unicodedata gives (%s,%s,%v)", u(ha), u(hbb), hok, u(a), u(b), ok)
+	}
+	if ok && b != 0 {
+		x1, o1 := hb.VerifCompose(a, b)
+		x2, o2 := ucd.Compose(a, b)
+		if x1 != x2 || o1 != o2 {
+			fail("shaper compose", "(%s,%v), unicodedata gives (%s,%v)", u(x1), o1, u(x2), o2)
+		}
+	}
+	if m1, _ := ucd.LookupMirrorChar(r); hb.VerifMirroring(r) != m1 {
+		fail("shaper mirroring", "%s, unicodedata gives %s", u(hb.VerifMirroring(r)), u(m1))
+	}
 	// --- mirroring
 	if m, ok := ucd.LookupMirrorChar(r); ok {
 		ev.Label("mirrored")
@@ -230,6 +267,8 @@ func checkCodePoint(t ev.TB, r rune) (assigned bool) {
 }
 
 var sameUnicode = unicode.Version == norm.Version
+
+var hbMCC = hb.VerifModifiedCombiningClassTable()
 
 var (
 	skewOnce sync.Once
@@ -424,16 +463,16 @@ func TestPropDirection(t *testing.T) {
 			fail("IsVertical/IsSideways inconsistent")
 		}
 		// Harfbuzz depends only on axis + progression
-		var want harfbuzz.Direction
+		var want hb.Direction
 		switch {
 		case f0.axis == di.Horizontal && f0.prog == di.FromTopLeft:
-			want = harfbuzz.LeftToRight
+			want = hb.LeftToRight
 		case f0.axis == di.Horizontal:
-			want = harfbuzz.RightToLeft
+			want = hb.RightToLeft
 		case f0.prog == di.FromTopLeft:
-			want = harfbuzz.TopToBottom
+			want = hb.TopToBottom
 		default:
-			want = harfbuzz.BottomToTop
+			want = hb.BottomToTop
 		}
 		if d.Harfbuzz() != want {
 			fail("Harfbuzz()=%v want %v", d.Harfbuzz(), want)
